@@ -96,9 +96,16 @@ type Gen struct {
 	retStates  map[int]retState // per return ordinal: heap and result values (for replay)
 	curTag     int
 	tagAnc     map[int]map[int]bool
-	obls       []*Obligation
-	ncnt       int
-	kcnt       map[string]int
+	// iterations of unrolled loops with cut points are verified independently: each gets a synthetic tag whose
+	// ancestors are the code before the loop (not the earlier iterations, which the cut point forgets)
+	tagOverride int
+	synAnc      map[int]map[int]bool
+	synOwner    map[int]int
+	nextSynTag  int
+	cutHook     func()
+	obls        []*Obligation
+	ncnt        int
+	kcnt        map[string]int
 
 	vals   map[ssa.Value]*Val
 	states map[*ssa.BasicBlock]*blockState
@@ -193,7 +200,7 @@ func (g *Gen) emit(s string) {
 		g.lineTag = append(g.lineTag, -1)
 	}
 	g.lines = append(g.lines, s)
-	g.lineTag = append(g.lineTag, g.curTag)
+	g.lineTag = append(g.lineTag, g.effTag())
 }
 
 // tagOf: the slicing tag of a block: its index, or the header index of the outermost unrolled loop containing it
@@ -279,7 +286,7 @@ func (g *Gen) obligeNamed(name, kind, goal string, pos token.Pos, desc string, p
 		g.usedNames = map[string]bool{}
 	}
 	g.usedNames[name] = true
-	o := &Obligation{Name: name, Kind: kind, Unit: g.unit, PrefixLen: len(g.lines), Tag: g.curTag,
+	o := &Obligation{Name: name, Kind: kind, Unit: g.unit, PrefixLen: len(g.lines), Tag: g.effTag(),
 		Goal: fmt.Sprintf("(=> %s %s)", g.reach, goal), Desc: desc, Props: props}
 	if pos.IsValid() {
 		p := g.eng.fset.Position(pos)
@@ -1270,6 +1277,8 @@ func (g *Gen) walkUnrolled(li *loopInfo, body []*ssa.BasicBlock, n int) {
 		}
 	}
 	ins := g.incoming(h, false)
+	entryTag, savedOverride := g.effTag(), g.tagOverride
+	var iterTags []int
 	for iter := 0; iter <= n; iter++ {
 		g.unrollTag = fmt.Sprintf("%s.u%d", savedTag, iter)
 		if !g.enterBlock(h, ins) {
@@ -1300,7 +1309,13 @@ func (g *Gen) walkUnrolled(li *loopInfo, body []*ssa.BasicBlock, n int) {
 				}
 				g.keepPhi[phi] = constStep
 			}
+			g.cutHook = func() {
+				t := g.newIterTag(entryTag, g.tagOf(h))
+				iterTags = append(iterTags, t)
+				g.tagOverride = t
+			}
 			g.loopEntryEdges(li, ins)
+			g.cutHook = nil
 			g.keepPhi = nil
 		} else {
 			for _, in := range h.Instrs {
@@ -1351,6 +1366,18 @@ func (g *Gen) walkUnrolled(li *loopInfo, body []*ssa.BasicBlock, n int) {
 		ins = g.incoming(h, true)
 	}
 	g.unrollTag = savedTag
+	g.tagOverride = savedOverride
+	if savedOverride >= synTagBase {
+		// the enclosing iteration continues after this loop and needs what its iterations established
+		for _, t := range iterTags {
+			g.synAnc[savedOverride][t] = true
+			for a := range g.synAnc[t] {
+				if a >= synTagBase {
+					g.synAnc[savedOverride][a] = true
+				}
+			}
+		}
+	}
 	for _, b := range body {
 		g.unrolledBody[b] = true
 		g.inUnroll[b] = false
@@ -1525,4 +1552,54 @@ func (g *Gen) preludesCover(e *Expr) bool {
 	}
 	walk(e)
 	return ok
+}
+
+func (g *Gen) effTag() int {
+	if g.tagOverride != 0 {
+		return g.tagOverride
+	}
+	return g.curTag
+}
+
+const synTagBase = 1 << 20
+
+// newIterTag creates the tag of one unrolled iteration entered from code tagged entryTag.
+func (g *Gen) newIterTag(entryTag, owner int) int {
+	if g.synAnc == nil {
+		g.synAnc = map[int]map[int]bool{}
+		g.synOwner = map[int]int{}
+		g.nextSynTag = synTagBase
+	}
+	if g.tagAnc == nil {
+		g.computeTagAnc()
+	}
+	g.nextSynTag++
+	t := g.nextSynTag
+	anc := map[int]bool{t: true, entryTag: true}
+	if entryTag >= synTagBase {
+		for a := range g.synAnc[entryTag] {
+			anc[a] = true
+		}
+	} else {
+		for a := range g.tagAnc[entryTag] {
+			anc[a] = true
+		}
+	}
+	g.synAnc[t] = anc
+	g.synOwner[t] = owner
+	return t
+}
+
+// isAncTag: may a line tagged l be needed by an obligation tagged o?
+func (g *Gen) isAncTag(l, o int) bool {
+	if l < 0 || o < 0 || l == o {
+		return true
+	}
+	if o >= synTagBase {
+		return g.synAnc[o][l]
+	}
+	if l >= synTagBase {
+		return g.tagAnc[o][g.synOwner[l]]
+	}
+	return g.tagAnc[o][l]
 }
